@@ -3067,6 +3067,21 @@ class Interp:
         named `opq:` and counts as imprecision of the analysis (terms.OPAQUE_SEEN)."""
         for a_ in list(args) + list(kwargs.values()):
             self.frozen_guard(a_, st, f"passed to {target}", ctx.loc(node))
+        if opaque:
+            # a library function without a model that is handed a mutable container may change it (heapq.heapify, random.shuffle,
+            # list.sort through a helper ...): the container's content is unknown afterwards, and the run is marked imprecise
+            touched = False
+            for a_ in list(args) + list(kwargs.values()):
+                if isinstance(a_, tuple) and a_[:1] == ("obj",) and a_[1] in st.heap and st.heap[a_[1]].kind in ("list", "dict", "set") and not st.heap[a_[1]].name.startswith("memo:"):
+                    ho_ = st.heap[a_[1]]
+                    ho_.symbolic, ho_.items = True, []
+                    ho_.name = f"opq:argument of {target}"
+                    touched = True
+                elif isinstance(a_, tuple) and a_[:1] == ("obj",) and a_[1] in st.heap and st.heap[a_[1]].name == "bytearray":
+                    st.heap[a_[1]].fields["buf"] = top(f"buffer handed to {target}")
+                    touched = True
+            if touched and not target.startswith("opq:"):
+                target = "opq:" + target
         if result is None:
             result = ("sym", st.fresh(f"{'opq' if opaque else 'ret'}:{target}"), "any")
         st.events.append(
@@ -3167,10 +3182,12 @@ class Interp:
             e, cnd, w, nev = st.pending[i]
             st.pending[i] = (e, conj([neg(cond), cnd]), w, nev)
         sa_, sb_ = (T.to_seq(a) if self.lib._textlike(a) else None), (T.to_seq(b) if self.lib._textlike(b) else None)
+        def _template_like(q: Term) -> bool:
+            return len(q[2]) >= 3 and any(isinstance(at, tuple) and at[:1] == ("L",) and len(at[1]) >= 16 for at in q[2])
         if (sa_ is not None and sb_ is not None and sa_[1] == sb_[1] and sa_ != sb_ and not (is_c(a) and is_c(b)) and _is_cond(cond)
-                and (T.const_width(sa_) is None or T.const_width(sb_) is None or T.const_width(sa_) != T.const_width(sb_) or int(T.const_width(sa_)) > 8)):
-            # a choice between two whole texts (two packet templates, not a one-byte field): the statement is re-executed
-            # once per choice - the fork an `if` statement around it would be
+                and (_template_like(sa_) or _template_like(sb_))):
+            # a choice between two filled-in packet templates (several pieces around a long literal; not a field value):
+            # the statement is re-executed once per choice - the fork an `if` statement around it would be
             raise NeedSplit(cond)
         return ite(cond, a, b)
 
